@@ -14,6 +14,7 @@ import (
 	"time"
 
 	"github.com/atlassian/escalator/pkg/controller"
+	"github.com/stephanos/clock"
 )
 
 func runForever(w io.Writer, stats map[string]int) {
@@ -26,38 +27,50 @@ func runForever(w io.Writer, stats map[string]int) {
 	cases := []fcase{{1, 1, false}, {1, 2, false}, {0, 2, false}, {2, 2, false}, {0, 0, true}}
 	results := make([]map[string]interface{}, len(cases))
 	done := make(chan int, len(cases))
+	// set-up is sequential (newHist installs its own mock clock in the package-level clock of the scale-down code): all cases
+	// are built first, then ONE clock frozen at the current second is installed for all of them, then the loops run side by side
+	hs := make([]*Hist, len(cases))
+	sec := time.Now().Unix()
 	for ci, fc := range cases {
-		go func(ci int, fc fcase) {
+		h := newHist(newRng(uint64(77+ci)), io.Discard)
+		o := baseOpts()
+		o.Name, o.LabelKey, o.LabelValue, o.CloudProviderGroupName = "g0", "grp", "v0", "asg0"
+		o.MinNodes, o.MaxNodes = 0, 5
+		h.cfgs = []controller.NodeGroupOptions{o}
+		h.pcfgs = []PGroupCfg{protoCfg(o)}
+		h.aws.asgs["asg0"] = &SimASG{Name: "asg0", Min: 0, Max: 5, VpcZones: "subnet-a"}
+		h.scanInterval = 20 * time.Millisecond
+		if fc.foreign {
+			h.addNode(0, 4000, 16*GiB, 5000, true) // a member, so that the cloud group is above its minimum
+			f := h.addNode(0, 4000, 16*GiB, 5000, false)
+			f.Taints = append(f.Taints, WTaint{Key: escKey, Effect: "NoSchedule", Rel: true, Ago: 3600}) // long past both grace periods
+			h.aws.asgs["asg0"].Desired = 1
+		}
+		h.syncOrdered()
+		for _, n := range h.api {
+			h.k8s.store[n.Name] = n.materialise(sec)
+		}
+		h.nodeL.nodes = nil
+		for _, n := range h.listed {
+			h.nodeL.nodes = append(h.nodeL.nodes, n.materialise(sec))
+		}
+		obs := map[string]interface{}{"outcome": "init-failed", "scans": 0}
+		results[ci] = map[string]interface{}{"op": "forever", "failFrom": fc.failFrom, "failCount": fc.failCount, "foreign": fc.foreign, "obs": obs}
+		if h.initController() {
+			hs[ci] = h
+		}
+	}
+	shared := clock.NewMock()
+	shared.FreezeAt(time.Unix(sec, 0))
+	clock.Work = shared
+	for ci, fc := range cases {
+		if hs[ci] == nil {
+			done <- ci
+			continue
+		}
+		go func(ci int, fc fcase, h *Hist) {
 			defer func() { done <- ci }()
-			h := newHist(newRng(uint64(77+ci)), io.Discard)
-			o := baseOpts()
-			o.Name, o.LabelKey, o.LabelValue, o.CloudProviderGroupName = "g0", "grp", "v0", "asg0"
-			o.MinNodes, o.MaxNodes = 0, 5
-			h.cfgs = []controller.NodeGroupOptions{o}
-			h.pcfgs = []PGroupCfg{protoCfg(o)}
-			h.aws.asgs["asg0"] = &SimASG{Name: "asg0", Min: 0, Max: 5, VpcZones: "subnet-a"}
-			h.scanInterval = 20 * time.Millisecond
-			if fc.foreign {
-				h.addNode(0, 4000, 16*GiB, 5000, true) // a member, so that the cloud group is above its minimum
-				f := h.addNode(0, 4000, 16*GiB, 5000, false)
-				f.Taints = append(f.Taints, WTaint{Key: escKey, Effect: "NoSchedule", Rel: true, Ago: 3600}) // long past both grace periods
-				h.aws.asgs["asg0"].Desired = 1
-			}
-			h.syncOrdered()
-			sec := time.Now().Unix()
-			h.mock.FreezeAt(time.Unix(sec, 0))
-			for _, n := range h.api {
-				h.k8s.store[n.Name] = n.materialise(sec)
-			}
-			h.nodeL.nodes = nil
-			for _, n := range h.listed {
-				h.nodeL.nodes = append(h.nodeL.nodes, n.materialise(sec))
-			}
-			obs := map[string]interface{}{"outcome": "init-failed", "scans": 0}
-			results[ci] = map[string]interface{}{"op": "forever", "failFrom": fc.failFrom, "failCount": fc.failCount, "foreign": fc.foreign, "obs": obs}
-			if !h.initController() {
-				return
-			}
+			obs := results[ci]["obs"].(map[string]interface{})
 			h.rec.reset()
 			for i := 0; i < fc.failCount; i++ {
 				h.rec.FailAt[fc.failFrom+i] = true
@@ -80,7 +93,7 @@ func runForever(w io.Writer, stats map[string]int) {
 				obs["outcome"] = "running"
 			}
 			obs["scans"] = h.rec.n
-		}(ci, fc)
+		}(ci, fc, hs[ci])
 	}
 	for range cases {
 		<-done
